@@ -167,6 +167,40 @@ def h_mps_whole(H, net, training):
         H.ensure('[C18] export:training-mode-kept', all(m.training for m in model.modules()))
 
 
+def h_mps_per_channel(H, net):
+    """C05, last clause, at model level: with the per-channel search and the 0-bit option, the channels a producer prunes are exactly the
+    input features its consumers are charged for (wiring of the features calculators by the MPS graph passes), whatever the consumer type"""
+    cls, feeds = NETS[net]
+    user = cls()
+    _concrete_weights(H, user)
+    shape = SHAPES.get(net, SHAPE)
+    model = MPS(user, input_example=torch.zeros(*shape), w_search_type=MPSType.PER_CHANNEL, qinfo=get_default_qinfo((0, 8), (8,)))
+    layers = dict(model.seed.named_modules())
+    alive = {}
+    for n, p in model.named_nas_parameters():
+        if not n.endswith('alpha') or len(H.shape(p)) != 2:
+            continue
+        a = H.tensor('alpha.' + n, H.shape(p))
+        H.set_(p, a)
+        lname = n.replace('seed.', '', 1).split('.w_mps_quantizer')[0]
+        keep = []
+        for c in range(H.shape(p)[1]):
+            # precision 0 is alternative 0: the channel is pruned iff its 0-bit coefficient is the (first) largest
+            # (the last layer is not offered the 0-bit alternative: a single row)
+            pruned = H.shape(p)[0] > 1 and H.branch(H.ge(H.scalar(a[0, c]), H.scalar(a[1, c])))
+            keep.append(0.0 if pruned else 1.0)
+        alive[lname] = keep
+    model.eval()
+    x = H.const_tensor([[[[0.75]]]]) if shape[1] == 1 else H.const_tensor([[[[0.75]], [[0.375]]]])
+    model(x)
+    for name, prod in feeds.items():
+        if prod not in alive:
+            continue
+        calc = layers[name].input_features_calculator
+        H.ensure('[C05] wiring:consumer-is-charged-for-the-alive-channels-of-its-producer', H.eq(H.scalar(calc.features), sum(alive[prod])))
+    H.observe('alive', alive)
+
+
 PROPERTY = {}
 
 _B = (True, False)
@@ -175,6 +209,8 @@ _FUNCS = [_P + 'mps.py::MPS.__init__', _P + 'mps.py::MPS.export', _P + 'mps.py::
           _P + 'graph.py::build_shared_mps_qtz_map', _P + 'graph.py::convert_layers', _P + 'graph.py::autoimport_node', _P + 'graph.py::export_node',
           _P + 'graph.py::add_input_quantizer', _P + 'graph.py::fuse_mps_modules', _P + 'graph.py::register_in_mps_quantizers']
 HARNESSES = [
+    dict(name='whole-mps-per-channel', fn='h_mps_per_channel', property=['C05'], functions=_FUNCS,
+         quick=[dict(net='chain'), dict(net='depthwise-middle')], thorough=[dict(net=n) for n in ('chain', 'residual', 'depthwise-middle')], timeout=120, crosscheck=2),
     dict(name='whole-mps', fn='h_mps_whole', property=['C02', 'C05', 'C11', 'C07', 'C18'], functions=_FUNCS,
          quick=[dict(net='chain', training=True), dict(net='residual', training=False), dict(net='depthwise-first', training=False), dict(net='depthwise-middle', training=False)],
          thorough=[dict(net=n, training=t) for n in NETS for t in _B], timeout=120, crosscheck=2),
